@@ -122,6 +122,7 @@ type cfg struct {
 func main() {
 	r := lib.Start("C05", "exploration")
 	r.Rule = "every vector in {OK,NonRevokable,Unknown,Revoked,out-of-range}^n for chains n=1..4 x validator error x validator interface x revocation action {enforce,log,skip} x scheme (thorough: x format x method/server-error annotations x all 24 levels); distinct by the full tuple; non-trivial = revocation not skipped"
+	r.Rule += "; plus validator answers that do not cover the chain (nil entry, empty, nil, one short, one long), both interfaces supplied at once, an empty-subject leaf, the same signature twice on one verifier with the verdict changing, and a slow deprecated client under an expiring context"
 	r.Assumptions = []string{"vectors whose length differs from the chain, or nil entries, are outside the quantifier and not generated",
 		"'fails as revoked and names a revoked certificate' is read from the revocation result's error text (the only observable): it must contain 'revoked', not 'unknown', and the subject of a certificate scripted as revoked"}
 	vals := []result.Result{result.ResultOK, result.ResultNonRevokable, result.ResultUnknown, result.ResultRevoked, result.Result(9)}
